@@ -145,6 +145,8 @@ def execute(history, D, workdir, probes, tag="h"):
     """run a history on a fresh Region(maxdepth=D); returns the steps with obs."""
     from AegeanTools.regions import Region
     region = Region(maxdepth=D)
+    live = None               # a second region that stays alive during the history
+    diskfile = os.path.join(workdir, "%s_disk.mim" % tag)
     steps = []
     for k, call in enumerate(history):
         st = {k2: v for k2, v in call.items() if k2 != "ans"}
@@ -181,6 +183,23 @@ def execute(history, D, workdir, probes, tag="h"):
                 region.save(p)
                 region = Region.load(p)
                 os.remove(p)
+            elif op == "save_file":
+                region.save(diskfile)
+            elif op == "load_file":
+                region = Region.load(diskfile)
+            elif op == "live_add":
+                if live is None:
+                    live = Region(maxdepth=D)
+                live.add_pixels([int(p) for p in call["pix"]], call["level"])
+            elif op in ("union_live", "without_live", "live_union_self"):
+                if live is None:
+                    live = Region(maxdepth=D)
+                if op == "union_live":
+                    region.union(live)
+                elif op == "without_live":
+                    region.without(live)
+                else:
+                    live.union(region)
             elif op == "export_moc":
                 p = os.path.join(workdir, "%s_%d_moc.fits" % (tag, k))
                 if call.get("via") == "mimas":
@@ -215,5 +234,14 @@ def execute(history, D, workdir, probes, tag="h"):
             ret = {"kind": "error", "text": "%s: %s" % (type(e).__name__, e)}
         st["obs"] = observe(region, D, probes)
         st["obs"]["ret"] = ret
+        if live is not None:
+            try:
+                lv, ok = _intlist(copy.deepcopy(live).get_demoted())
+                st["obs"]["live"] = lv
+            except Exception as e:
+                st["obs"]["error"] = st["obs"]["error"] or ("live region: %s: %s" % (type(e).__name__, e))
+        st.pop("postlive", None)
         steps.append(st)
+    if os.path.exists(diskfile):
+        os.remove(diskfile)
     return steps
